@@ -76,6 +76,23 @@ check("C09", "fault_enumeration",
       SIM + "configuration enumeration + seeded search over real bring-up code, reference decision model",
       "DESIGN.md 4/C09", "manager-world")
 
+check("C10", "fault_enumeration",
+      "Histories of manager process lifetimes (real ManagerRunner.run, load_pin, FileBasedPin, "
+      "_handle_bootloader, Ledger and SGX PIN commands) over a simulated file system and device that "
+      "survive crashes. Enumerated for the single-lifetime change scenarios (+ power cycle + restart): "
+      "every crash seam (I/O fence at every device-link, file-system, sleep and entropy call), every file "
+      "operation x fault (EPERM/EIO/ENOSPC, short write, torn close, failed close, read error), every PIN "
+      "exchange x link fault; seeded histories of up to 4 (thorough 6) lifetimes. Invariants: I1 file "
+      "changes only after the device's acknowledgement and then holds that PIN, I2 refused / failed / "
+      "aborted change leaves file and device untouched, I3 generated PINs satisfy the policy (entropy seam "
+      "driven adversarially), I4 no serving after a change attempt, I5 a PIN from {file, default} opens the "
+      "device at every quiescent point. Three root-caused known findings (I1/I5: crash, commit I/O error, "
+      "lost acknowledgement) are matched by signature; anything else is a violation.",
+      "Process-crash model (completed file-system effects survive; no fsync in the code under test, power "
+      "loss outside the property); at most one fault per lifetime; the operator does not touch the PIN file.",
+      SIM + "crash-point / file-system-fault / link-fault enumeration over process lifetimes with durability invariants",
+      "DESIGN.md 4/C10", "manager-world")
+
 check("C11", "fault_enumeration",
       "Link fault {write error, read error before/after the device acted, time-out before/after} at every "
       "exchange index of every command variant (enumerated per policy seed), then 1..3 follow-ups under a "
